@@ -16,9 +16,16 @@ Record hobs := HObs {
 
 (* one header value driven through a sequence of operations; then All() of the final header, and All() of a fresh
    header of the same type and flags after Read() of the serialised final header (None = Read returned an error) *)
+(* a step: an operation of the property (typed setters such as SetContentType / SetHost / SetContentLength(n>=0) and
+   SetCanonical are recorded as the HSet they are documented to equal), Reset(), or DisableNormalizing() /
+   EnableNormalizing() in the middle of the sequence *)
+Inductive xop := XOp (o : hop) | XReset | XNorm (off : bool).
+
 Inductive c29case :=
-| CHdr (isresp nonorm nodefct : bool) (probes : list bytes) (steps : list (hop * hobs))
-       (final_all : kvs) (reread : option kvs).
+| CHdr (isresp nonorm nodefct : bool) (probes : list bytes) (steps : list (xop * hobs))
+       (final_all : kvs) (reread : option kvs)
+       (* reuse after Read: on the header that was read back, Set("X-Verif-New","1") then Del(delkey); All() afterwards *)
+       (delkey : bytes) (reread2 : kvs).
 
 Definition kv_eqb : (bytes * bytes) -> (bytes * bytes) -> bool := pair_eqb beq beq.
 Definition probe_eqb (a b : bytes * list bytes) : bool := beq (fst a) (fst b) && list_eqb beq (snd a) (snd b).
@@ -49,31 +56,52 @@ Definition hobs_eqb (a b : hobs) : bool :=
 
 Definition want (o : hobs) : bool := match o_all o with Some _ => true | None => false end.
 
-Fixpoint rcorr (nonorm : bool) (r : resp) (cprobes : list bytes) (steps : list (hop * hobs)) : bool * resp :=
+Definition cprobes_of (nonorm : bool) (probes : list bytes) : list bytes := map (fun k => getHeaderKeyBytes k nonorm) probes.
+
+Definition rxstep (r : resp) (x : xop) : resp :=
+  match x with
+  | XOp o => rstep29 r o
+  | XReset => rinit false false                                  (* Reset(): everything cleared, both flags off *)
+  | XNorm off => with_rh r (with_hdisableNorm (rh r) off)
+  end.
+Definition qxstep (q : req) (x : xop) : req :=
+  match x with
+  | XOp o => qstep29 q o
+  | XReset => qinit false false
+  | XNorm off => with_qh q (with_hdisableNorm (qh q) off)
+  end.
+Definition flag_after (nonorm : bool) (x : xop) : bool :=
+  match x with XOp _ => nonorm | XReset => false | XNorm off => off end.
+
+Fixpoint rcorr (nonorm : bool) (r : resp) (probes cprobes : list bytes) (steps : list (xop * hobs)) : bool * resp :=
   match steps with
   | [] => (true, r)
-  | (o, ob) :: rest =>
-      let r' := rstep29 r o in
-      if Bool.eqb (hdisableNorm (rh r')) nonorm && hobs_eqb (robs r' cprobes (want ob)) ob
-      then rcorr nonorm r' cprobes rest else (false, r')
+  | (x, ob) :: rest =>
+      let r' := rxstep r x in
+      let nonorm' := flag_after nonorm x in
+      let cprobes' := match x with XOp _ => cprobes | _ => cprobes_of nonorm' probes end in
+      if Bool.eqb (hdisableNorm (rh r')) nonorm' && hobs_eqb (robs r' cprobes' (want ob)) ob
+      then rcorr nonorm' r' probes cprobes' rest else (false, r')
   end.
-Fixpoint qcorr (nonorm : bool) (q : req) (cprobes : list bytes) (steps : list (hop * hobs)) : bool * req :=
+Fixpoint qcorr (nonorm : bool) (q : req) (probes cprobes : list bytes) (steps : list (xop * hobs)) : bool * req :=
   match steps with
   | [] => (true, q)
-  | (o, ob) :: rest =>
-      let q1 := qstep29 q o in
-      let '(q2, mo) := qobs q1 cprobes (want ob) in
-      if Bool.eqb (hdisableNorm (qh q1)) nonorm && hobs_eqb mo ob then qcorr nonorm q2 cprobes rest else (false, q2)
+  | (x, ob) :: rest =>
+      let q1 := qxstep q x in
+      let nonorm' := flag_after nonorm x in
+      let cprobes' := match x with XOp _ => cprobes | _ => cprobes_of nonorm' probes end in
+      let '(q2, mo) := qobs q1 cprobes' (want ob) in
+      if Bool.eqb (hdisableNorm (qh q1)) nonorm' && hobs_eqb mo ob then qcorr nonorm' q2 probes cprobes' rest else (false, q2)
   end.
 
 Definition corr_ok (c : c29case) : bool :=
   match c with
-  | CHdr isresp nonorm nodefct probes steps final_all _ =>
-      let cprobes := map (fun k => getHeaderKeyBytes k nonorm) probes in
+  | CHdr isresp nonorm nodefct probes steps final_all _ _ _ =>
+      let cprobes := cprobes_of nonorm probes in
       if isresp then
-        let '(ok, r) := rcorr nonorm (rinit nonorm nodefct) cprobes steps in ok && list_eqb kv_eqb (RAll r) final_all
+        let '(ok, r) := rcorr nonorm (rinit nonorm nodefct) probes cprobes steps in ok && list_eqb kv_eqb (RAll r) final_all
       else
-        let '(ok, q) := qcorr nonorm (qinit nonorm nodefct) cprobes steps in
+        let '(ok, q) := qcorr nonorm (qinit nonorm nodefct) probes cprobes steps in
         (* Read() refuses an HTTP/1.1 request without Host: the harness calls SetHost("rt.host") when none is set *)
         let q := match QHost q with [] => QSetHostBytes q (s2b "rt.host") | _ => q end in
         ok && list_eqb kv_eqb (snd (QAll q)) final_all
@@ -130,15 +158,23 @@ Definition untouched (nonorm : bool) (cprobes : list bytes) (o : hop) (prev cur 
            cprobes (combine (o_probe prev) (o_probe cur))
   || negb (Nat.eqb (length (o_probe prev)) (length (o_probe cur))).
 
-Fixpoint prop_steps (t : htype) (nonorm nodefct : bool) (cprobes : list bytes) (m : mm)
-         (prev : option hobs) (steps : list (hop * hobs)) : bool :=
+Fixpoint prop_steps (t : htype) (nonorm nodefct : bool) (probes cprobes : list bytes) (m : mm)
+         (prev : option hobs) (steps : list (xop * hobs)) : bool :=
   match steps with
   | [] => true
-  | (o, ob) :: rest =>
+  | (XOp o, ob) :: rest =>
       let m' := sstep t nonorm m (sop_of o) in
       obs_agrees t nodefct cprobes m' ob
       && match prev with Some p => untouched nonorm cprobes o p ob | None => true end
-      && prop_steps t nonorm nodefct cprobes m' (Some ob) rest
+      && prop_steps t nonorm nodefct probes cprobes m' (Some ob) rest
+  | (XReset, ob) :: rest =>
+      (* Reset(): an empty header with normalisation and the default content type back on *)
+      let cp := map (canon false) probes in
+      obs_agrees t false cp [] ob && prop_steps t false false probes cp [] None rest
+  | (XNorm off, ob) :: rest =>
+      (* the stored fields keep the names they were stored under; later calls use the new setting *)
+      let cp := map (canon off) probes in
+      obs_agrees t nodefct cp m ob && prop_steps t off nodefct probes cp m None rest
   end.
 
 (* ---- write, then read back ---- *)
@@ -160,7 +196,9 @@ Definition drop_default_ct (t : htype) (nodefct : bool) (before after : kvs) : k
             then filter (fun e => negb (beq (fst e) strContentType)) after else after
   | HResp => after
   end.
-Definition roundtrip_ok (t : htype) (nodefct : bool) (before : kvs) (reread : option kvs) : bool :=
+Definition roundtrip_ok (t : htype) (nonorm nodefct : bool) (before : kvs) (reread : option kvs) : bool :=
+  (* a name stored while normalisation was off is read back in the spelling of the setting in force at the end *)
+  let before := map (fun e => (canon nonorm (fst e), snd e)) before in
   if forallb clean_field before then
     match reread with
     | None => false
@@ -170,10 +208,25 @@ Definition roundtrip_ok (t : htype) (nodefct : bool) (before : kvs) (reread : op
     end
   else true.
 
+(* a parsed header that is then mutated: the new field is there once, the deleted name is gone, every other name
+   keeps its values in order (judged without the model: the parser belongs to another property) *)
+Definition reuse_ok (reread : option kvs) (delkey : bytes) (after : kvs) : bool :=
+  match reread with
+  | None => true
+  | Some before =>
+      let newk := s2b "X-Verif-New" in
+      forallb (fun c => if beq c newk then list_eqb beq (vals_of after c) [s2b "1"]
+                        else if beq c delkey then list_eqb beq (vals_of after c) []
+                        else list_eqb beq (vals_of after c) (vals_of before c))
+              (newk :: delkey :: map fst before ++ map fst after)
+  end.
+
 Definition prop_ok (c : c29case) : bool :=
   match c with
-  | CHdr isresp nonorm nodefct probes steps final_all reread =>
+  | CHdr isresp nonorm nodefct probes steps final_all reread delkey reread2 =>
       let t := if isresp then HResp else HReq in
-      prop_steps t nonorm nodefct (map (canon nonorm) probes) [] None steps
-      && roundtrip_ok t nodefct final_all reread
+      prop_steps t nonorm nodefct probes (map (canon nonorm) probes) [] None steps
+      && roundtrip_ok t (fold_left (fun f x => flag_after f (fst x)) steps nonorm)
+                      (fold_left (fun nd x => match fst x with XReset => false | _ => nd end) steps nodefct) final_all reread
+      && reuse_ok reread delkey reread2
   end.
